@@ -16,6 +16,10 @@ def plan(tier, seed):
     jobs.append(ch("C02", "vf/pyshim/h_rowgroup.py", "h_make_row_group", t, ["writer.make_row_group"]))
     jobs.append(ch("C02", "vf/pyxlift/h_footer.py", "h_common_metadata", t,
                    ["writer.write_common_metadata", "cencoding.ThriftObject.to_bytes (compiled, concrete)"]))
+    # an append numbers its new part files above every number in use (a reused number overwrites a file that
+    # _metadata still describes)
+    for h in ("h_find_max_part", "h_find_max_part_dirs", "h_find_max_part_order"):
+        jobs.append(ch("C02", G, h, t, ["writer.find_max_part", "api.part_ids"]))
     jobs.append(ch("C02", H, "h_levels_no_nulls", t, ["writer.make_definitions", "core.skip_definition_bytes"]))
     jobs.append(ch("C02", H, "h_levels_with_nulls", t, ["writer.make_definitions (pages with NULLs)"]))
     jobs.append(dict(name="C02-lemma-dict-index-framing", kind="pyfunc", timeout=300,
